@@ -14,7 +14,9 @@ VARIABLES law, f, g, h, phase
 vars == <<law, f, g, h, phase>>
 
 AtomTexts == { "name > 'p4.log'", "name <= 'p6'", "ext >= 'm'", "name < 500", "name gte 'q'", "path lt './p5'",
-               "size > 10", "name like '%.txt'", "ext === 'log'" }
+               "size > 10", "name like '%.txt'", "ext === 'log'",
+               \* date atoms whose interval ends on the second some entry was modified (23:59:59 of the day, 15:59:59 of the hour)
+               "modified = 2017-05-01", "modified != '2017-05-01 15'", "modified > '2017-05-01 15'", "modified <= 2017-05-01" }
 Laws == {"complement", "complement-prefix", "doubleneg", "and", "or", "demorgan-and", "demorgan-or", "precedence"}
 Unary == {"complement", "complement-prefix", "doubleneg"}
 Init == law = "" /\ f = "" /\ g = "" /\ h = "" /\ phase = "start"
